@@ -62,7 +62,7 @@ def coq_output(st):
     return "(PDiags [%s])" % "; ".join(coq_diag(d) for d in st["diags"])
 
 
-PKGS = {"pa": 0, "pb": 1, "pc": 2, "pd": 3, "pe": 4}
+PKGS = {"pa": 0, "pb": 1, "pc": 2, "pd": 3, "pe": 4, "pf": 5}
 
 
 def load_error_text(sc, version):
@@ -428,6 +428,18 @@ def run(c):
             if sc.get("files_on_state", 0) > 0 and not fl.get("force"):
                 c.coverage["scenarios_with_files_run_after_a_kept_fix"] = c.coverage.get("scenarios_with_files_run_after_a_kept_fix", 0) + 1
                 c.coverage["files_run_after_a_kept_fix"] = c.coverage.get("files_run_after_a_kept_fix", 0) + sc["files_on_state"]
+            # the ends of files: suggestions of the direct engine that end at the end-of-file position, and delivered fixes
+            # whose edit ends there (measured for the generator obligation; the comparison above judges them)
+            if v0:
+                eofs = {}
+                for pk, reps in (sc["direct"].get(str(v0)) or {}).items():
+                    eofs[pk] = {r["to"] for r in reps or [] if r.get("to_eof")}
+                for st in steps:
+                    ends = eofs.get(st["pkg"]) or set()
+                    ne = sum(1 for d in st["diags"] for fx in d["fixes"] or [] for e in fx["edits"] or [] if e["end"] in ends)
+                    if ne:
+                        c.coverage["delivered_fixes_ending_at_eof"] = c.coverage.get("delivered_fixes_ending_at_eof", 0) + ne
+                        eof_files.update((st["pkg"], e["end"]) for d in st["diags"] for fx in d["fixes"] or [] for e in fx["edits"] or [] if e["end"] in ends)
             if any(st.get("panic") for st in steps):
                 c.fail("oracle", "analyzer run panicked", input=inp, observed=[st.get("panic") for st in steps if st.get("panic")][:2])
             for d in (d for st in steps for d in st["diags"]):
@@ -453,6 +465,8 @@ def run(c):
         c.coverage.setdefault("diagnostics_compared", 0)
         c.coverage["diagnostics_compared"] += sum(len(st["diags"]) for sc in scs for st in sc["steps"])
         c.coverage["model_vs_impl"] = "regenerated" if (gen_ok or gen_usable) else "specification only (regenerated model unavailable)"
+
+    eof_files = set()
 
     def check_e2e():
         for r in e2e_results:
@@ -484,6 +498,10 @@ def run(c):
                  "%d scenarios (cached engine) ran further files / passes on the pooled runner state after a diagnostic with a fix had been kept "
                  "(%d files); %d suggestion slices of the direct engine examined for aliasing" % (
                      nkept, c.coverage.get("files_run_after_a_kept_fix", 0), c.coverage.get("suggestion_slices_examined_for_aliasing", 0)))
+
+    c.obligation("generator:eof-suggestions", len(eof_files) >= 5 and c.coverage.get("delivered_fixes_ending_at_eof", 0) >= 40,
+                 "%d delivered fixes whose text edit ends at the end-of-file position of its file (a file without a trailing newline whose "
+                 "last token belongs to the replaced node), %d distinct files" % (c.coverage.get("delivered_fixes_ending_at_eof", 0), len(eof_files)))
 
     # every -e text of the pool once (the rule given on the command line has to be the rule that is loaded)
     def e_sweep(seed, tag):
